@@ -17,6 +17,7 @@ type engineOpts struct {
 	late      bool
 	bigTTL    float64
 	retryable bool
+	sendStall bool
 }
 
 func genEngineScenario(prop string, rng *rand.Rand, o engineOpts) *sim.Scenario {
@@ -64,6 +65,10 @@ func genEngineScenario(prop string, rng *rand.Rand, o engineOpts) *sim.Scenario 
 	}
 	if o.retryable && chance(rng, 0.3) {
 		s.RetryableEvery = between(rng, 2, 5)
+	}
+	if o.sendStall && chance(rng, 0.15) {
+		s.SendStallTTL = between(rng, c.MinTTL, c.MaxTTL)
+		s.SendStallUs = int64(between(rng, 100, c.TimeoutMs*400))
 	}
 	c.Script = s
 	sc := &sim.Scenario{Property: prop, Calls: []sim.Call{c}, Tape: tape(rng, 64)}
@@ -132,14 +137,14 @@ func (c07) ID() string     { return "C07" }
 func (c07) Level() string  { return "exploration" }
 func (c07) QuickRuns() int { return 600000 }
 func (c07) Rule() string {
-	return "common.TracerouteParallel driven by a scripted driver whose SendProbe and ReceiveProbe park at the seeded scheduler: per TTL 0-3 scripted responses (some destination, several destination TTLs, duplicates, late ones, retryable errors, poll time-outs), send delay 0..20 ms (0 = every send races every receive); the scheduler's choice tape decides the interleaving of sends and hand-outs; the returned list must equal the reference fold (first wins, destination overrides, clip at lowest destination TTL) over the exact hand-out sequence; non-trivial = at least two responses were handed out; distinct = distinct interleavings (hash of the release sequence). Seeded search, not enumeration"
+	return "common.TracerouteParallel driven by a scripted driver whose SendProbe and ReceiveProbe park at the seeded scheduler: per TTL 0-3 scripted responses (some destination, several destination TTLs, duplicates, late ones, retryable errors, poll time-outs, in 15% of the runs one SendProbe that returns late while its responses are already being handed out), send delay 0..20 ms (0 = every send races every receive); the scheduler's choice tape decides the interleaving of sends and hand-outs; the returned list must equal the reference fold (first wins, destination overrides, clip at lowest destination TTL) over the exact hand-out sequence; non-trivial = at least two responses were handed out; distinct = distinct interleavings (hash of the release sequence). Seeded search, not enumeration"
 }
 func (c07) Assumptions() []string {
 	return []string{"a response becomes eligible once the probe it answers has been handed to the driver (plus its scripted delay)"}
 }
 
 func (c07) Gen(rng *rand.Rand, tier string, i int) *sim.Scenario {
-	return genEngineScenario("C07", rng, engineOpts{multiDest: true, late: true, bigTTL: 0.03, retryable: true})
+	return genEngineScenario("C07", rng, engineOpts{multiDest: true, late: true, bigTTL: 0.03, retryable: true, sendStall: true})
 }
 
 func (c07) Check(out *sim.Outcome, ri *RunInfo) []Violation {
@@ -186,7 +191,10 @@ func (c07) Check(out *sim.Outcome, ri *RunInfo) []Violation {
 		// the receiver keeps polling until the deadline: every response that became eligible at least
 		// one poll interval before it must have been handed out ("every reply ... before the
 		// deadline is reflected"), also after a destination response
-		if len(cs.Driver.Sends) > 0 && c.Script.RetryableEvery == 0 {
+		if c.Script.SendStallUs > 0 {
+			ri.probe("send-returns-late")
+		}
+		if len(cs.Driver.Sends) > 0 && c.Script.RetryableEvery == 0 && c.Script.SendStallUs == 0 {
 			deadline := cs.Driver.Sends[0].CallAt + ms(c.TimeoutMs) + time.Duration(c.MaxTTL-c.MinTTL+1)*ms(c.DelayMs)
 			handed := map[int]bool{}
 			for _, h := range cs.Driver.Handed {
